@@ -830,6 +830,10 @@ func (up4 *UP4) addInternalApplicationIDAndGetP4rtEntry(pdr pdr) (*p4.TableEntry
 	return applicationsEntry, up4Application.id, nil
 }
 
+// removeInternalApplicationIDAndGetP4rtEntry returns the ID of the application filter of the
+// PDR and, if the PDR is its last user, the applications entry to delete. It does not change
+// the bookkeeping: the reference is only given up by releaseInternalApplicationID once the
+// entries of the PDR have actually been deleted.
 func (up4 *UP4) removeInternalApplicationIDAndGetP4rtEntry(pdr pdr) (*p4.TableEntry, uint8) {
 	up4.applicationMu.Lock()
 	defer up4.applicationMu.Unlock()
@@ -841,11 +845,11 @@ func (up4 *UP4) removeInternalApplicationIDAndGetP4rtEntry(pdr pdr) (*p4.TableEn
 		return nil, 0
 	}
 
-	internalApp.usedBy.Remove(internalAppReference{
+	ref := internalAppReference{
 		pdr.fseID, pdr.pdrID,
-	})
+	}
 
-	if internalApp.usedBy.Cardinality() != 0 {
+	if internalApp.usedBy.Cardinality() > 1 || !internalApp.usedBy.Contains(ref) {
 		return nil, internalApp.id
 	}
 
@@ -854,9 +858,29 @@ func (up4 *UP4) removeInternalApplicationIDAndGetP4rtEntry(pdr pdr) (*p4.TableEn
 		return nil, internalApp.id
 	}
 
-	up4.unsafeReleaseInternalApplicationID(appFilter)
-
 	return applicationsEntry, internalApp.id
+}
+
+// releaseInternalApplicationID gives up the PDR's reference on its application filter and
+// returns the application ID to the pool when nobody uses the filter any more.
+func (up4 *UP4) releaseInternalApplicationID(pdr pdr) {
+	up4.applicationMu.Lock()
+	defer up4.applicationMu.Unlock()
+
+	appFilter := toUP4ApplicationFilter(pdr)
+
+	internalApp, exists := up4.applicationIDs[appFilter]
+	if !exists {
+		return
+	}
+
+	internalApp.usedBy.Remove(internalAppReference{
+		pdr.fseID, pdr.pdrID,
+	})
+
+	if internalApp.usedBy.Cardinality() == 0 {
+		up4.unsafeReleaseInternalApplicationID(appFilter)
+	}
 }
 
 func (up4 *UP4) allocateAppMeterCellID() (uint32, error) {
@@ -1394,6 +1418,10 @@ func (up4 *UP4) modifyUP4ForwardingConfiguration(pdrs []pdr, allFARs []far, qers
 
 				return ErrOperationFailedWithReason("applying table entries to UP4", p4Error.Error())
 			}
+		}
+
+		if methodType == p4.Update_DELETE && !pdr.IsAppFilterEmpty() {
+			up4.releaseInternalApplicationID(pdr)
 		}
 	}
 
